@@ -783,6 +783,8 @@ def record_runs(exprs_with_asg):
                 pass
             except (SyntaxError, ValueError, KeyError):
                 continue  # harvested literal that is not a well-formed condition expression over known key ranges
+            except Exception as e:  # noqa: BLE001 - total: any other exception is part of the recorded behaviour (no step of the machine explains it)
+                sink.append({"op": "raised", "err": f"exception:{type(e).__name__}"})
             tid += 1
             traces.append({"id": tid, "asg": [[int(k), v] for k, v in sorted(asg.items())], "events": list(sink), "expr": expr})
 
@@ -857,6 +859,8 @@ def result_level_decision(work: Work, cases, tag="evalresult"):
                 final["err"] = "invalid"
             except NotImplementedError:
                 final["err"] = "unsupported"
+            except Exception as e:  # noqa: BLE001 - total
+                final["err"] = f"exception:{type(e).__name__}"
             tree = eval_tree_of(expr)
 
             def rc_keys(n):
